@@ -39,9 +39,13 @@ var intervals = []int{1, 2, 3, 7}
 // alphabet of history symbols
 var alphabet = []string{"N", "R", "S1", "S2", "S3", "S7"}
 
+// crashAt is one injected fault at store call #Site: a crash (panic before / after
+// applying the call, the object is abandoned) or, with Fail, a store error (sentinel
+// returned, call not applied) after which the history continues with the SAME object.
 type crashAt struct {
 	Site  int  `json:"site"`
 	After bool `json:"after"`
+	Fail  bool `json:"fail,omitempty"`
 }
 
 type seqCase struct {
@@ -56,13 +60,16 @@ type violation struct {
 }
 
 type seqResult struct {
-	sites      int
-	fired      int
-	firedKinds []string
-	issued     int
-	events     int // crash / restart / release between first and last issued number
-	trace      string
-	viol       *violation
+	sites                    int
+	fired                    int
+	firedKinds               []string
+	failsFired, crashesFired int
+	failThenCrash            bool // a crash fired after a store error had been returned earlier in the run
+	failThenRestart          bool // a Restart followed a store error
+	issued                   int
+	events                   int // crash / restart / release between first and last issued number
+	trace                    string
+	viol                     *violation
 }
 
 func readMark(inner kvstore.KVStore) (uint64, bool) {
@@ -95,7 +102,9 @@ func runSeq(cs seqCase) seqResult {
 	inner := mapdb.NewMapDB()
 	plan := map[int]faultkv.Action{}
 	for _, c := range cs.Crashes {
-		if c.After {
+		if c.Fail {
+			plan[c.Site] = faultkv.Fail
+		} else if c.After {
 			plan[c.Site] = faultkv.CrashAfter
 		} else {
 			plan[c.Site] = faultkv.CrashBefore
@@ -108,6 +117,7 @@ func runSeq(cs seqCase) seqResult {
 	obj, _ := kvstore.NewSequence(st, seqKey, uint64(interval))
 	objNexts := 0       // successful Next calls on this object
 	objTouched := false // the object attempted Next/Release since creation or its last clean Release
+	objFailed := false  // a store call of this object returned an injected error
 
 	last := int64(-1)      // last issued number
 	slack := int64(0)      // numbers that may legitimately be skipped before the next issued one
@@ -121,7 +131,25 @@ func runSeq(cs seqCase) seqResult {
 		}
 		sinceLast = append(sinceLast, why)
 		obj, _ = kvstore.NewSequence(st, seqKey, uint64(interval))
-		objNexts, objTouched = 0, false
+		objNexts, objTouched, objFailed = 0, false, false
+		res.crashesFired++
+		if res.failsFired > 0 {
+			res.failThenCrash = true
+		}
+	}
+	// storeError handles a Next/Release that returned the injected store error: nothing was
+	// issued / released, the object stays in use. The statement does not say how much a
+	// failed reservation may waste, so the waste bound is relaxed by one interval (reuse
+	// stays strict).
+	storeError := func(opName string, err error) {
+		f := in.Fired()
+		k := f[len(f)-1]
+		fmt.Fprintf(&tr, "%s?%d ", opName[:1], k.Site)
+		res.firedKinds = append(res.firedKinds, opName+":"+k.Kind+":fail")
+		res.failsFired++
+		objFailed = true
+		slack += int64(interval)
+		sinceLast = append(sinceLast, "store-error")
 	}
 	checkMark := func(stepClass string) {
 		if last < 0 || regressBy != "" {
@@ -146,6 +174,7 @@ func runSeq(cs seqCase) seqResult {
 			var v uint64
 			var err error
 			objTouched = true
+			firedBefore := in.FiredCount()
 			cr, other := call(func() { v, err = obj.Next() })
 			if other != "" {
 				return fail("Next/panic", fmt.Sprintf("step %d: Next panicked: %s", i, other))
@@ -157,8 +186,16 @@ func runSeq(cs seqCase) seqResult {
 				checkMark("crash-in-Next")
 				continue
 			}
+			if err != nil && errors.Is(err, faultkv.ErrInjected) {
+				storeError("Next", err)
+				checkMark("failed-Next")
+				continue
+			}
 			if err != nil {
 				return fail("Next/unexpected-error", fmt.Sprintf("step %d: Next returned error %v on a healthy store", i, err))
+			}
+			if in.FiredCount() > firedBefore {
+				return fail("Next/store-error-not-reported", fmt.Sprintf("step %d: a store call failed inside Next but Next returned %d, nil", i, v))
 			}
 			fmt.Fprintf(&tr, "N=%d ", v)
 			if int64(v) <= last {
@@ -172,7 +209,7 @@ func runSeq(cs seqCase) seqResult {
 			if gap := int64(v) - last - 1; gap > slack {
 				cls := "gap-without-crash"
 				for _, e := range sinceLast {
-					if e == "crash" || e == "restart" {
+					if e == "crash" || e == "restart" || e == "store-error" {
 						cls = "waste-exceeds-one-interval-per-crash"
 					}
 				}
@@ -192,7 +229,11 @@ func runSeq(cs seqCase) seqResult {
 			last, slack, sinceLast = int64(v), 0, nil
 			objNexts++
 			res.issued++
-			checkMark("Next")
+			if objFailed {
+				checkMark("Next(after-store-error-on-same-object)")
+			} else {
+				checkMark("Next")
+			}
 		case op == "R":
 			var err error
 			cls := "Release(after-Next)"
@@ -200,6 +241,7 @@ func runSeq(cs seqCase) seqResult {
 				cls = "Release(object-never-called-Next)"
 			}
 			objTouched = true
+			firedBefore := in.FiredCount()
 			cr, other := call(func() { err = obj.Release() })
 			if other != "" {
 				return fail("Release/panic", fmt.Sprintf("step %d: Release panicked: %s", i, other))
@@ -211,8 +253,16 @@ func runSeq(cs seqCase) seqResult {
 				checkMark(cls) // only a crash after the Set can move the mark: same cause as a completed Release
 				continue
 			}
+			if err != nil && errors.Is(err, faultkv.ErrInjected) {
+				storeError("Release", err)
+				checkMark("failed-" + cls)
+				continue
+			}
 			if err != nil {
 				return fail("Release/unexpected-error", fmt.Sprintf("step %d: Release returned error %v on a healthy store", i, err))
+			}
+			if in.FiredCount() > firedBefore {
+				return fail("Release/store-error-not-reported", fmt.Sprintf("step %d: a store call failed inside Release but Release returned nil", i))
 			}
 			tr.WriteString("R ")
 			objTouched = false // clean release: this object wastes nothing
@@ -228,8 +278,11 @@ func runSeq(cs seqCase) seqResult {
 				slack += int64(old)
 			}
 			sinceLast = append(sinceLast, "restart")
+			if res.failsFired > 0 {
+				res.failThenRestart = true
+			}
 			obj, _ = kvstore.NewSequence(st, seqKey, uint64(interval))
-			objNexts, objTouched = 0, false
+			objNexts, objTouched, objFailed = 0, false, false
 		}
 	}
 	res.trace = tr.String()
@@ -247,6 +300,7 @@ func ba(after bool) string {
 
 type stats struct {
 	runs, crashRuns, crashesFired, issued, nontrivialRuns, doubleCrashRuns int
+	failsFired, failRuns, failThenCrashRuns, failThenRestartRuns           int
 	kinds                                                                  map[string]int
 	viols                                                                  []struct {
 		v  violation
@@ -271,12 +325,20 @@ func explore(c *vf.Ctx, st *stats, cs seqCase, maxCrashes int) {
 		if len(cs.Crashes) > 1 {
 			st.doubleCrashRuns++
 		}
-		if r.fired == len(cs.Crashes) {
-			st.crashesFired++
-		}
+		st.crashesFired += r.crashesFired
 	}
 	for _, k := range r.firedKinds {
 		st.kinds[k]++
+	}
+	st.failsFired += r.failsFired
+	if r.failsFired > 0 {
+		st.failRuns++
+		if r.failThenCrash {
+			st.failThenCrashRuns++
+		}
+		if r.failThenRestart {
+			st.failThenRestartRuns++
+		}
 	}
 	if r.issued >= 2 && r.events > 0 {
 		st.nontrivialRuns++
@@ -305,9 +367,9 @@ func explore(c *vf.Ctx, st *stats, cs seqCase, maxCrashes int) {
 		from = cs.Crashes[n-1].Site
 	}
 	for s := from + 1; s <= r.sites; s++ {
-		for _, after := range []bool{false, true} {
+		for _, f := range []crashAt{{Site: s}, {Site: s, After: true}, {Site: s, Fail: true}} {
 			next := cs
-			next.Crashes = append(append([]crashAt(nil), cs.Crashes...), crashAt{s, after})
+			next.Crashes = append(append([]crashAt(nil), cs.Crashes...), f)
 			explore(c, st, next, maxCrashes)
 		}
 	}
@@ -337,6 +399,10 @@ func mergeStats(c *vf.Ctx, mu *sync.Mutex, st *stats) {
 	c.Count("crash_runs", st.crashRuns)
 	c.Count("multi_crash_runs", st.doubleCrashRuns)
 	c.Count("crash_points_fired", st.crashesFired)
+	c.Count("store_errors_fired", st.failsFired)
+	c.Count("runs_with_store_error", st.failRuns)
+	c.Count("runs_store_error_then_crash", st.failThenCrashRuns)
+	c.Count("runs_store_error_then_restart", st.failThenRestartRuns)
 	c.Count("numbers_issued", st.issued)
 	c.Count("nontrivial_runs", st.nontrivialRuns)
 	for k, v := range st.kinds {
@@ -378,7 +444,7 @@ func sequentialPart(c *vf.Ctx) {
 	workers := runtime.NumCPU()
 	var mu sync.Mutex
 	exhLen := c.Pick(6, 7) // all histories up to this length, every single crash point
-	dblLen := c.Pick(6, 7) // … and every pair of crash points up to this length
+	dblLen := c.Pick(6, 7) // … and every pair of faults (incl. store error + later crash) up to this length
 	triLen := c.Pick(4, 6) // … and every triple up to this length
 	type job struct{ i0, length, lo, hi int }
 	var jobs []job
@@ -416,7 +482,7 @@ func sequentialPart(c *vf.Ctx) {
 		mu.Unlock()
 		mergeStats(c, &mu, st)
 	})
-	c.Extra("exhaustive_bound", fmt.Sprintf("all histories over {Next, Release, Restart(1|2|3|7)} of length <= %d for every initial interval in {1,2,3,7}, each with no crash and with a crash before and after every store call; every pair of crash points for length <= %d, every triple for length <= %d", exhLen, dblLen, triLen))
+	c.Extra("exhaustive_bound", fmt.Sprintf("all histories over {Next, Release, Restart(1|2|3|7)} of length <= %d for every initial interval in {1,2,3,7}, each fault-free and with a crash before / a crash after / a store error at every store call; every pair of crash points for length <= %d, every triple for length <= %d", exhLen, dblLen, triLen))
 
 	// sampled longer histories (length 7..9), up to 3 crashes
 	nSample := c.Pick(3000, 60000)
@@ -451,7 +517,11 @@ func sequentialPart(c *vf.Ctx) {
 				}
 				var cr []crashAt
 				for s := range sites {
-					cr = append(cr, crashAt{s, rng.Intn(2) == 0})
+					f := crashAt{Site: s, After: rng.Intn(2) == 0}
+					if rng.Intn(3) == 0 {
+						f = crashAt{Site: s, Fail: true}
+					}
+					cr = append(cr, f)
 				}
 				sort.Slice(cr, func(a, b int) bool { return cr[a].Site < cr[b].Site })
 				mc := cs
@@ -471,8 +541,9 @@ func sequentialPart(c *vf.Ctx) {
 		{Interval0: 3, Ops: []string{"N", "N", "S3", "R", "S3", "N"}},
 		{Interval0: 3, Ops: []string{"N", "R", "R", "N"}},
 		{Interval0: 2, Ops: []string{"N", "R", "N", "N", "N"}},
-		{Interval0: 2, Ops: []string{"N", "N", "N"}, Crashes: []crashAt{{4, false}}},
-		{Interval0: 2, Ops: []string{"N", "N", "N"}, Crashes: []crashAt{{4, true}}},
+		{Interval0: 2, Ops: []string{"N", "N", "N"}, Crashes: []crashAt{{Site: 4}}},
+		{Interval0: 2, Ops: []string{"N", "N", "N"}, Crashes: []crashAt{{Site: 4, After: true}}},
+		{Interval0: 2, Ops: []string{"N", "N", "S2", "N"}, Crashes: []crashAt{{Site: 2, Fail: true}}},
 	} {
 		r := runSeq(cs)
 		cs.Trace = r.trace
@@ -650,7 +721,7 @@ func run(c *vf.Ctx) {
 		replay(c)
 		return
 	}
-	c.SetRule("sequential: every history over {Next, Release, Restart(interval in 1,2,3,7)} up to the exhaustive length, for each initial interval, is executed without a crash and with an injected crash (panic, object abandoned, fresh NewSequence on the same store) before and after every store call it makes (pairs of crash points for the shorter lengths; longer histories sampled from the seed with 1-3 crashes); one evaluation = one execution of a (history, crash plan); distinct_nontrivial = distinct crash-free histories in which at least two numbers were issued with a crash/restart/release between the first and the last of them. concurrent: one evaluation = one Next call made while 2-16 goroutines share the Sequence")
+	c.SetRule("sequential: every history over {Next, Release, Restart(interval in 1,2,3,7)} up to the exhaustive length, for each initial interval, is executed without a crash and with an injected fault at every store call it makes: a crash before / after applying it (panic, object abandoned, fresh NewSequence on the same store) or a store error (sentinel returned, not applied, the same object keeps being used) (pairs of crash points for the shorter lengths; longer histories sampled from the seed with 1-3 crashes); one evaluation = one execution of a (history, crash plan); distinct_nontrivial = distinct crash-free histories in which at least two numbers were issued with a crash/restart/release between the first and the last of them. concurrent: one evaluation = one Next call made while 2-16 goroutines share the Sequence")
 	sequentialPart(c)
 	flushViols(c)
 	c.SetExhaustive(true)
@@ -678,7 +749,10 @@ func run(c *vf.Ctx) {
 	c.Require("evaluations", 100000)
 	c.Require("nontrivial", 1000)
 	c.Require("crash_points_fired", 10000)
-	c.Require("crash_site_kinds", 6) // Next:{Get,Set}×{before,after}, Release:Set×{before,after}
+	c.Require("crash_site_kinds", 9) // Next:{Get,Set}×{before,after,fail}, Release:Set×{before,after,fail}
+	c.Require("store_errors_fired", 10000)
+	c.Require("runs_store_error_then_crash", 1000)
+	c.Require("runs_store_error_then_restart", 1000)
 	c.Require("concurrent_next_calls", 10000)
 	c.Require("overlapping_calls", 1000)
 	c.Require("race_children", 1)
